@@ -78,6 +78,7 @@ impl PartialOrdSpecImpl<CoinValue> for CoinValue {
         if self.0 < other.0 { Some(core::cmp::Ordering::Less) } else if self.0 == other.0 { Some(core::cmp::Ordering::Equal) } else { Some(core::cmp::Ordering::Greater) } }
 }
 impl PartialOrd for CoinValue { #[verifier::external_body] fn partial_cmp(&self, other: &CoinValue) -> (r: Option<core::cmp::Ordering>) { unimplemented!() } }
+impl Default for CoinValue { fn default() -> (r: CoinValue) ensures r.0 == 0 { CoinValue(0) } }
 impl CoinValue {
     pub fn min(self, other: CoinValue) -> (r: CoinValue) ensures r.0 == (if self.0 <= other.0 { self.0 } else { other.0 }) { if self.0 <= other.0 { self } else { other } }
 }
@@ -215,3 +216,7 @@ impl PartialEqSpecImpl<StrLit> for HexString {
     open spec fn eq_spec(&self, other: &StrLit) -> bool { is_grandfathered(self.src()) }
 }
 impl PartialEq<StrLit> for HexString { #[verifier::external_body] fn eq(&self, other: &StrLit) -> (r: bool) { unimplemented!() } }
+
+// std methods vstd does not specify
+pub assume_specification<T, E> [std::result::Result::<T, E>::unwrap_or] (r: std::result::Result<T, E>, d: T) -> (v: T)
+    ensures v == (match r { Ok(x) => x, Err(_) => d });
